@@ -181,12 +181,12 @@ def abstract_atoms(exprs, hyps=None):
 
 
 def rcp_axioms(table, walk):
-    """b * rcp(b) == 1 for every abstracted rcp atom."""
+    """b != 0 => b * rcp(b) == 1 for every abstracted rcp atom."""
     ax = []
     for nm, (inner, orig) in table.items():
         if inner.decl().eq(RCP):
             b = inner.arg(0)
-            ax.append(b * z3.Real(nm) == 1)
+            ax.append(z3.Implies(b != 0, b * z3.Real(nm) == 1))
     return ax
 
 
